@@ -30,8 +30,10 @@ def memCoil (seed : Nat) (server : String) (unit : UInt8) (addr : Nat) : Bool :=
   (memReg seed server unit addr / 4) % 2 == 1
 
 /-- the coil payload of a conforming reply: `n` coils from `start`, packed least significant bit first -/
-def memCoilBytes (seed : Nat) (server : String) (unit : UInt8) (start n : Nat) : Bytes :=
-  Spec.pack ((List.range n).map fun i => memCoil seed server unit (start + i))
+def memCoilBytes (seed : Nat) (server : String) (unit : UInt8) (start n : Nat) (complete : Bool := true) : Bytes :=
+  -- (for odd seeds the device leaves the unused bits of the last byte of a complete reply set: they belong to no coil)
+  let pad := if seed % 2 == 1 && complete then List.replicate ((8 - n % 8) % 8) true else []
+  Spec.pack (((List.range n).map fun i => memCoil seed server unit (start + i)) ++ pad)
 
 structure ExtractOp where
   target : Nat
@@ -73,7 +75,7 @@ def ExtractOp.modelOut (op : ExtractOp) : String :=
       let status :=
         if n == 0 then "parse-err|"
         else if op.target < 4 then
-          extractedStr (extractCoilFields b (memCoilBytes op.seed b.server b.unit b.start.toNat n) op.lenient)
+          extractedStr (extractCoilFields b (memCoilBytes op.seed b.server b.unit b.start.toNat n (n == q)) op.lenient)
         else extractedStr (extractRegisterFields b ⟨memBytes op.seed b.server b.unit b.start.toNat n, []⟩ op.lenient)
       s!"{b.server}|{b.unit}|{b.start}|{q}|{",".intercalate (b.fields.map (·.name))}|{status}"
     "ok " ++ ";".intercalate parts
@@ -219,6 +221,8 @@ def judgeC05 (op : ExtractOp) (out : String) : Expect :=
     | some w => .pred false w
 
 def ExtractOp.judge (prop : String) (op : ExtractOp) (out : String) : Expect :=
+  if (out.splitOn "PAYLOAD-CHANGED-BY-EXTRACTION").length > 1 then
+    .pred false "extracting fields changed the response: it no longer encodes to the frame it was parsed from" else
   -- C13: every field's value is the direct decoding of the device memory, whatever was extracted before it and in
   -- which order (the generator permutes and repeats fields) - the same oracle as C05
   if op.target < 4 then (if prop == "C11" then judgeC11x op out else .noPanic) else
